@@ -6,6 +6,7 @@ package gen
 
 import (
 	"encoding/hex"
+	"fmt"
 	"strings"
 
 	"pgregory.net/rapid"
@@ -166,7 +167,7 @@ func smallStr(t *rapid.T, label string, minLen int) []byte {
 
 // wellKnown: option keys the accessors of RouterAddress / RouterInfo interpret,
 // with values from their edge sets (empty, one character, malformed, boundary).
-var wellKnownKeys = []string{"host", "port", "caps", "s", "i", "v", "ih0", "iexp0", "itag0", "ih2", "router.version", "netId", "caps"}
+var wellKnownKeys = []string{"host", "port", "caps", "s", "i", "v", "ih0", "iexp0", "itag0", "ih1", "iexp1", "itag1", "ih2", "iexp2", "itag2", "mtu", "router.version", "netId", "caps"}
 var wellKnownVals = []string{"", "1.2.3.4", "::1", "::ffff:1.2.3.4", "example.i2p", "80", "0", "65536", "+80", "6", "4", "B6", "NRf", "0.9.64", "0.9", "a.b.c", "2", "x"}
 
 // Options draws a sorted, duplicate-free pair list of 0..max pairs; about half
@@ -640,8 +641,37 @@ func (a AddrSpec) Build() model.RouterAddr {
 	return model.RouterAddr{Cost: a.Cost, Expiration: a.Expiration, Style: unhex(a.Style), Options: a.Options.Build()}
 }
 
+// introducers: an SSU address as routers publish it - host, port and 1..3 complete
+// introducer triples (ih<n>, iexp<n>, itag<n>), optionally with a gap.
+func introducers(t *rapid.T, label string) Pairs {
+	m := map[string]string{"host": "1.2.3.4", "port": "9000", "caps": "BC"}
+	n := rapid.IntRange(1, 3).Draw(t, label+"-n")
+	gap := -1
+	if rapid.IntRange(0, 4).Draw(t, label+"-gap") == 0 {
+		gap = rapid.IntRange(0, n-1).Draw(t, label+"-gapat")
+	}
+	for i := 0; i < n; i++ {
+		if i == gap {
+			continue
+		}
+		m[fmt.Sprintf("ih%d", i)] = model.Base64(model.Fill(32, uint64(i)+3))
+		m[fmt.Sprintf("iexp%d", i)] = fmt.Sprint(1700000000 + i)
+		m[fmt.Sprintf("itag%d", i)] = fmt.Sprint(1000 + i)
+	}
+	var out Pairs
+	for _, p := range model.PairsFromMap(m) {
+		out = append(out, [2]string{hex.EncodeToString(p.K), hex.EncodeToString(p.V)})
+	}
+	return out
+}
+
 func AddrG(t *rapid.T, label string) AddrSpec {
 	a := AddrSpec{Cost: rapid.Uint8().Draw(t, label+"-cost"), Options: Options(t, label+"-opt", 6)}
+	if rapid.IntRange(0, 7).Draw(t, label+"-introducers") == 0 {
+		a.Options = introducers(t, label+"-intro")
+		a.Style = hex.EncodeToString([]byte(rapid.SampledFrom([]string{"SSU", "SSU2", "ssu2"}).Draw(t, label+"-ssustyle")))
+		return a
+	}
 	if rapid.IntRange(0, 3).Draw(t, label+"-hasexp") == 0 {
 		a.Expiration = rapid.Uint64().Draw(t, label+"-exp")
 	}
